@@ -76,3 +76,19 @@ def body(ctx, shape):
     except Exception as e:  # noqa: BLE001
         ctx.fail("second-parse-of-the-same-text-rejected", f"{type(e).__name__}@{exc_site(e)}")
     ctx.require(ctx.eq(again, obj), "second-parse-of-the-same-text-differs")
+    # the definition is the caller's and its lists / extension dict are mutable: after a change
+    # the text form has to follow (a text computed earlier must not be handed out again)
+    changed = False
+    for k, v in vars(obj).items():
+        if isinstance(v, list) and k != "extensions":
+            v.append("zz")
+            changed = True
+        elif isinstance(v, dict):
+            v["ZZ"] = ["v"]
+            changed = True
+    if changed:
+        try:
+            back3 = C.from_string(ctx.text(obj))
+        except Exception as e:  # noqa: BLE001
+            ctx.fail("text-form-of-the-changed-definition-rejected", f"{type(e).__name__}@{exc_site(e)}")
+        ctx.require(ctx.eq(back3, obj), "text-form-does-not-follow-a-change-of-the-definition")
